@@ -12,6 +12,9 @@ static void fill_int()
     OP2("mod", xs::mod(x, y));
     OP2("min", xs::min(x, y));
     OP2("max", xs::max(x, y));
+    OP2("fmin", xs::fmin(x, y));
+    OP2("fmax", xs::fmax(x, y));
+    OP1("pos", xs::pos(x));
     OP2("sadd", xs::sadd(x, y));
     OP2("ssub", xs::ssub(x, y));
     OP2("avg", xs::avg(x, y));
